@@ -79,6 +79,7 @@ var targets = []target{
 		}
 		return acc
 	}},
+	{"WeightedMerkleTrie.Deserialize (one trie object reused for every input)", nil},
 	{"WeightedMerkleTrie.VerifyBlockProof", func(b []byte) bool {
 		ok := false
 		for _, blk := range []uint64{0, 1, 2, 3, ^uint64(0)} {
@@ -750,6 +751,7 @@ func C15(tier rt.Tier) int {
 		wg.Add(1)
 		go func(w int) {
 			defer wg.Done()
+			var reused *wmpt.WeightedMerkleTrie
 			for batch := range jobs {
 				for _, j := range batch {
 					func() {
@@ -774,7 +776,18 @@ func C15(tier rt.Tier) int {
 								}
 							}
 						}()
-						acc := j.t.run(j.b)
+						var acc bool
+						if j.t.run == nil {
+							// the same object decodes input after input (accepted or rejected): a rejected input must leave it usable
+							if reused == nil {
+								reused = wmpt.New(nil, dev.NewStore())
+							}
+							acc = reused.Deserialize(j.b) == nil
+							_, _, _ = reused.VerifyBlockProof(1, j.b)
+							_ = reused.Weight()
+						} else {
+							acc = j.t.run(j.b)
+						}
 						atomic.AddInt64(&st.evals, 1)
 						if acc {
 							atomic.AddInt64(&st.accepted, 1)
@@ -801,6 +814,10 @@ func C15(tier rt.Tier) int {
 	}
 	for _, t := range targets {
 		emit := send(t)
+		ck := t.name // the corpus the target draws from
+		if strings.HasPrefix(ck, "WeightedMerkleTrie.Deserialize") {
+			ck = "WeightedMerkleTrie.Deserialize"
+		}
 		count := int64(0)
 		// (a) all byte strings up to maxLen
 		emit([]byte{})
@@ -822,24 +839,24 @@ func C15(tier rt.Tier) int {
 			}
 		}
 		// (b) the near-valid neighbourhood of every corpus encoding
-		for _, c := range corp[t.name] {
-			mutations(c, corp[t.name], thorough, func(m []byte) { emit(m); count++ })
+		for _, c := range corp[ck] {
+			mutations(c, corp[ck], thorough, func(m []byte) { emit(m); count++ })
 		}
 		// (d) CBOR type confusion: every data item (also inside embedded elements) replaced by null, 0,
 		// empty string/array/map, ...
-		if t.name != "util.CreateNode" {
-			for _, c := range corp[t.name] {
+		if ck != "util.CreateNode" {
+			for _, c := range corp[ck] {
 				typeConfusions(c, 1, func(m []byte) { emit(m); count++ })
 			}
 		}
 		// (d') kind confusion with equal hashes
-		if t.name == "WeightedMerkleTrie.Deserialize" || t.name == "WeightedMerkleTrie.VerifyBlockProof" {
-			for _, c := range corp[t.name] {
+		if ck == "WeightedMerkleTrie.Deserialize" || ck == "WeightedMerkleTrie.VerifyBlockProof" {
+			for _, c := range corp[ck] {
 				kindCollisions(c, func(m []byte) { emit(m); count++ })
 			}
 		}
 		// (c) structure-aware enumeration of field lengths for the CBOR formats
-		switch t.name {
+		switch ck {
 		case "wmpt.DeserializeNode":
 			for _, n := range structNodes {
 				emit(n)
@@ -852,7 +869,7 @@ func C15(tier rt.Tier) int {
 			}
 		}
 		// (e) large well-formed inputs
-		for _, b := range scaled[t.name] {
+		for _, b := range scaled[ck] {
 			emit(b)
 			count++
 		}
@@ -874,7 +891,7 @@ func C15(tier rt.Tier) int {
 	rep.Set("accepted_inputs", int(st.accepted))
 	rep.Set("inputs_per_decoder", st.perTgt)
 	rep.Set("corpus_encodings", csize)
-	rep.Set("rule", fmt.Sprintf("for each of the four decoders: ALL byte strings of length <= %d, plus for every real encoding of the corpus (state-trie nodes of every kind, weighted-trie nodes incl. branches with embedded short children, path exports, block proofs; each decoder also sees the other formats): every truncation, every single-byte deletion, every byte value at each of the first 24 (thorough 64) positions and {00,3a,7f,80,ff} (+ every bit flip in thorough) elsewhere, separator duplication, every CBOR head rewritten to every length form incl. 4/8-byte lengths near 2^31/2^63 and indefinite, every splice head(A)+tail(B) at separator/head boundaries; plus a structure-aware enumeration for the CBOR formats: well-formed nodes whose fields take every boundary length (child entries of 0..100 bytes, 0..32 children, short-node key/value/hash lengths, several kinds at once), alone and as first/second element of exports and proofs; and CBOR type confusion: every data item of every corpus encoding, also inside embedded proof/export elements, replaced by null, 0, true, a huge integer, empty byte/text string, empty array, empty map, [null]; every entry of every export/proof replaced by an entry of another node kind with the same true hash where constructible (node hashes carry no kind tag) and by entries of every other kind repeating the recorded hash, with and without the entries behind it; plus large well-formed inputs: path exports that are chains of 64/1000/20000 (thorough 100000) one-nibble shared-prefix nodes with true hashes and with a wrong bottom hash, flat exports of 1000/200000 entries, a 301-entry export with one null / empty / garbage / truncated entry at the front, in the middle and at the end, nodes with 2^16/2^20-byte fields, state-trie type bytes followed by 2^16/2^20 separator/filler bytes; oracle: returns value or error without panic within 120 s, anything accepted is re-encoded/hashed/copied without panic; 'states' = corpus encodings; inputs are counted, not deduplicated", maxLen))
+	rep.Set("rule", fmt.Sprintf("for each of the four decoders (the path-export decoder also in a variant where ONE trie object decodes input after input, so that a rejected input must leave the object usable): ALL byte strings of length <= %d, plus for every real encoding of the corpus (state-trie nodes of every kind, weighted-trie nodes incl. branches with embedded short children, path exports, block proofs; each decoder also sees the other formats): every truncation, every single-byte deletion, every byte value at each of the first 24 (thorough 64) positions and {00,3a,7f,80,ff} (+ every bit flip in thorough) elsewhere, separator duplication, every CBOR head rewritten to every length form incl. 4/8-byte lengths near 2^31/2^63 and indefinite, every splice head(A)+tail(B) at separator/head boundaries; plus a structure-aware enumeration for the CBOR formats: well-formed nodes whose fields take every boundary length (child entries of 0..100 bytes, 0..32 children, short-node key/value/hash lengths, several kinds at once), alone and as first/second element of exports and proofs; and CBOR type confusion: every data item of every corpus encoding, also inside embedded proof/export elements, replaced by null, 0, true, a huge integer, empty byte/text string, empty array, empty map, [null]; every entry of every export/proof replaced by an entry of another node kind with the same true hash where constructible (node hashes carry no kind tag) and by entries of every other kind repeating the recorded hash, with and without the entries behind it; plus large well-formed inputs: path exports that are chains of 64/1000/20000 (thorough 100000) one-nibble shared-prefix nodes with true hashes and with a wrong bottom hash, flat exports of 1000/200000 entries, a 301-entry export with one null / empty / garbage / truncated entry at the front, in the middle and at the end, nodes with 2^16/2^20-byte fields, state-trie type bytes followed by 2^16/2^20 separator/filler bytes; oracle: returns value or error without panic within 120 s, anything accepted is re-encoded/hashed/copied without panic; 'states' = corpus encodings; inputs are counted, not deduplicated", maxLen))
 	rep.Sample(map[string]any{"decoder": "util.CreateNode", "input_hex": "02"})
 	if c := corp["wmpt.DeserializeNode"]; len(c) > 0 {
 		rep.Sample(map[string]any{"decoder": "wmpt.DeserializeNode", "corpus_encoding_hex": hex.EncodeToString(c[0])})
